@@ -158,19 +158,20 @@ def extract_thresholds():
             t_raw = 'tmp1=(1+np.sqrt(1-tmp0*tmp0))/2'
             first = 'ret=-tmp1*np.log(tmp1)'
             second = 'ret=ret-(1-tmp1)*np.log(1-tmp1)'
-            if len(els) >= 1 and els[0] in (t_clamp, t_raw):
+            if len(els) >= 2 and els[0] in (t_clamp, t_raw):
                 clamp = els[0] == t_clamp
-                rest = els[1:]
-                if rest == [first, 'iftmp1<1:\n' + '' + second] or (len(rest) == 2 and rest[0] == first and isinstance(n.orelse[2], ast.If)
-                        and ast.unparse(n.orelse[2].test).replace(' ', '') == 'tmp1<1' and not n.orelse[2].orelse
-                        and [ast.unparse(s).replace(' ', '') for s in n.orelse[2].body] == [second]):
+                rest = n.orelse[1:]
+                u = els[1:]
+                if (len(rest) == 2 and u[0] == first and isinstance(rest[1], ast.If) and not rest[1].orelse
+                        and ast.unparse(rest[1].test).replace(' ', '') == 'tmp1<1'
+                        and [ast.unparse(s).replace(' ', '') for s in rest[1].body] == [second]):
                     guard, ok = True, True
-                elif rest == [first, second] or rest == ['ret=-tmp1*np.log(tmp1)-(1-tmp1)*np.log(1-tmp1)']:
+                elif u == [first, second] or u == ['ret=-tmp1*np.log(tmp1)-(1-tmp1)*np.log(1-tmp1)']:
                     guard, ok = False, True
     T['eofZeroShortcut'] = zero
     T['eofClampSqrtArg'] = clamp
     T['eofSecondTermGuardLt1'] = guard
-    T['eofRecognised'] = ok and zero is not None
+    T['eofRecognised'] = ok
     # --- get_gme_2qubit
     f = _func(meas, 'get_gme_2qubit')
     gclamp, gok = False, False
@@ -189,7 +190,7 @@ def extract_thresholds():
 def _lean_rat(fr):
     if fr is None:
         return '(0 : Rat)'   # absent default: slack obligations fail
-    return f'(({fr.numerator} : Int) : Rat) / {fr.denominator}'
+    return f'(({fr.numerator}) : Rat) / {fr.denominator}'
 
 
 def render_thresholds(T):
@@ -249,3 +250,284 @@ def translate(ctx):
     if ctx is not None:
         ctx.extra['thresholds'] = {k: (str(v) if isinstance(v, Fraction) else v) for k, v in T.items()}
     return T
+
+
+# ---------------------------------------------------------------------------------------------------------------
+# correspondence: exact tie of the index layer and of the verdict layer
+# ---------------------------------------------------------------------------------------------------------------
+DIMS_QUICK = [(2, 2), (2, 3), (3, 2), (3, 3), (2, 4), (2, 2, 2), (2, 3, 2), (3, 2, 2)]
+DIMS_THOROUGH = DIMS_QUICK + [(4, 2), (3, 4), (2, 2, 3), (2, 2, 2, 2), (3, 3, 2)]
+
+
+def guarded(f):
+    try:
+        return f()
+    except AssertionError:
+        return 'error:assert'
+    except (ValueError, TypeError, IndexError, KeyError) as e:
+        return 'error:' + type(e).__name__
+
+
+def gi(v):
+    """complex with integer parts -> 're,im'"""
+    v = complex(v)
+    r, i = round(v.real), round(v.imag)
+    if abs(v.real - r) > 1e-9 or abs(v.imag - i) > 1e-9:
+        return 'nonintegral'
+    return f'{int(r)},{int(i)}'
+
+
+def dump(M):
+    return ';'.join(gi(v) for v in np.asarray(M).reshape(-1))
+
+
+def ents(M):
+    return ';'.join(f'{int(round(v.real))},{int(round(v.imag))}' for v in np.asarray(M, dtype=np.complex128).reshape(-1))
+
+
+def dims_str(dim):
+    return ';'.join(str(int(d)) for d in dim)
+
+
+def frac_str(fr):
+    fr = Fraction(fr)
+    return f'{fr.numerator}/{fr.denominator}'
+
+
+@contextlib.contextmanager
+def capture():
+    """record the matrices that the criteria hand to the PSD test / nuclear norm / eigenvalue routines (verdicts forced to True
+    so that `all(...)` does not short-circuit)"""
+    import numqi
+    rec = dict(psd=[], norm=[], eigvals=[], eigvalsh=[])
+    o_psd, o_norm, o_eigvals, o_eigvalsh = numqi.utils.is_positive_semi_definite, np.linalg.norm, np.linalg.eigvals, np.linalg.eigvalsh
+
+    def psd(np0, shift=0.0, hermitian_eps=None):
+        rec['psd'].append((np.array(np0), shift))
+        return True
+
+    def norm(x, ord=None, axis=None, keepdims=False):
+        if ord == 'nuc':
+            rec['norm'].append(np.array(x))
+        return o_norm(x, ord=ord, axis=axis, keepdims=keepdims)
+
+    def eigvals(a):
+        rec['eigvals'].append(np.array(a))
+        return o_eigvals(a)
+
+    def eigvalsh(a, UPLO='L'):
+        rec['eigvalsh'].append(np.array(a))
+        return o_eigvalsh(a, UPLO)
+
+    numqi.utils.is_positive_semi_definite = psd
+    np.linalg.norm, np.linalg.eigvals, np.linalg.eigvalsh = norm, eigvals, eigvalsh
+    try:
+        yield rec
+    finally:
+        numqi.utils.is_positive_semi_definite = o_psd
+        np.linalg.norm, np.linalg.eigvals, np.linalg.eigvalsh = o_norm, o_eigvals, o_eigvalsh
+
+
+def parse_ents(s, N):
+    v = [complex(int(a), int(b)) for a, b in (t.split(',') for t in s.split(';'))]
+    return np.array(v, dtype=np.complex128).reshape(N, N)
+
+
+def impl_op(op):
+    import numqi
+    E = numqi.entangle
+    t = op.split(' ')
+    k = t[1]
+    if k == 'gpptlist':
+        def f():
+            from numqi.entangle.ppt import _is_generalized_ppt_dim_list
+            return '|'.join(','.join(str(x) for x in d0) + ':' + ','.join(str(x) for x in d1) for d0, d1 in _is_generalized_ppt_dim_list(int(t[2])))
+        return guarded(f)
+    dim = tuple(int(x) for x in t[2].split(';'))
+    N = int(np.prod(dim))
+    if k in ('ppt', 'red', 'gppt', 'swap', 'ptb'):
+        rho = parse_ents(t[3], N)
+        if k == 'ppt':
+            def f():
+                with capture() as rec:
+                    E.is_ppt(rho, dim)
+                return '|'.join(dump(m) for m, _ in rec['psd'])
+            return guarded(f)
+        if k == 'red':
+            def f():
+                with capture() as rec:
+                    E.check_reduction_witness(rho, dim)
+                return '|'.join(dump(m) for m, _ in rec['psd'])
+            return guarded(f)
+        if k == 'gppt':
+            def f():
+                with capture() as rec:
+                    E.is_generalized_ppt(rho, dim, return_info=True)
+                return '|'.join(f'{m.shape[0]}:' + dump(m) for m in rec['norm'])
+            return guarded(f)
+        if k == 'swap':
+            # the value is recovered exactly from verdicts: the first integer v with not (value > v - 1/2) ... done by bisection
+            def f():
+                lo, hi = -10 ** 6, 10 ** 6
+                # invariant: value > lo - 1/2 and not value > hi - 1/2  (value integer in [lo, hi-1])
+                if not E.check_swap_witness(rho, eps=lo - 0.5) or E.check_swap_witness(rho, eps=hi - 0.5):
+                    return 'out-of-range'
+                while hi - lo > 1:
+                    mid = (lo + hi) // 2
+                    if E.check_swap_witness(rho, eps=mid - 0.5):
+                        lo = mid
+                    else:
+                        hi = mid
+                return str(lo)
+            return guarded(f)
+        if k == 'ptb':
+            def f():
+                with capture() as rec:
+                    E.get_negativity(rho, dim)
+                a = dump(rec['eigvals'][0])
+                with capture() as rec:
+                    with np.errstate(all='ignore'):
+                        E.get_ppt_boundary(rho, dim, dm_norm=1.0, within_dm=False)
+                b = dump(rec['eigvalsh'][0][0])
+                return a if a == b else f'negativity:{a} ppt_boundary:{b}'
+            return guarded(f)
+    if k in ('vppt', 'vred', 'vgppt', 'vswap'):
+        eps = t[3]
+        rho = parse_ents(t[4], N)
+        kw = {} if eps == 'default' else {('threshold' if k == 'vgppt' else 'eps'): float(Fraction(eps))}
+        b = lambda x: '1' if x else '0'
+        if k == 'vppt':
+            return guarded(lambda: b(E.is_ppt(rho, dim, **kw)))
+        if k == 'vred':
+            return guarded(lambda: b(E.check_reduction_witness(rho, dim, **kw)))
+        if k == 'vgppt':
+            def f():
+                r0 = E.is_generalized_ppt(rho, dim, **kw)
+                r1 = E.is_generalized_ppt(rho, dim, return_info=True, **kw)[0]
+                return b(r0) if bool(r0) == bool(r1) else 'inconsistent-return_info'
+            return guarded(f)
+        if k == 'vswap':
+            return guarded(lambda: b(E.check_swap_witness(rho, **kw)))
+    return 'bad-op'
+
+
+def model_line(op, T):
+    """the op line sent to the Lean driver: `default` is replaced by the generated default so that the model is evaluated at the
+    constant the translator extracted (the implementation is called without the keyword)"""
+    t = op.split(' ')
+    if len(t) >= 5 and t[3] == 'default':
+        key = {'vppt': 'isPptEpsDefault', 'vred': 'reductionEpsDefault', 'vgppt': 'gpptThresholdDefault', 'vswap': 'swapEpsDefault'}[t[1]]
+        v = T.get(key)
+        t[3] = frac_str(v) if v is not None else '0/1'
+    return ' '.join(t)
+
+
+def rand_gint_matrix(rng, N, hermitian, lo=-3, hi=3, density=1.0):
+    A = rng.integers(lo, hi + 1, size=(N, N)) + 1j * rng.integers(lo, hi + 1, size=(N, N))
+    if density < 1:
+        A = A * (rng.random((N, N)) < density)
+    if hermitian:
+        A = A + A.conj().T
+    return A.astype(np.complex128)
+
+
+def gen_ops(ctx):
+    rng = np.random.default_rng(ctx.np_seed)
+    ops = []
+    dims = DIMS_QUICK if ctx.quick() else DIMS_THOROUGH
+    for n in range(2, 5 if ctx.quick() else 6):
+        ops.append(f'C05 gpptlist {n}')
+    rep = 3 if ctx.quick() else 12
+    for dim in dims:
+        N = int(np.prod(dim))
+        ds = dims_str(dim)
+        for r in range(rep):
+            H = rand_gint_matrix(rng, N, True, density=[1.0, 0.3, 1.0][r % 3])
+            G = rand_gint_matrix(rng, N, False, density=[1.0, 1.0, 0.3][r % 3])
+            ops.append(f'C05 ppt {ds} {ents(H)}')
+            ops.append(f'C05 red {ds} {ents(H)}')
+            if len(dim) <= 3 or not ctx.quick():
+                ops.append(f'C05 gppt {ds} {ents(G)}')
+            if len(dim) == 2:
+                ops.append(f'C05 ptb {ds} {ents(H)}')
+                if dim[0] == dim[1]:
+                    ops.append(f'C05 swap {ds} {ents(G)}')
+        # unit matrices: every entry position separately for the smallest systems (exhaustive over index pairs)
+        if N <= 6 or (not ctx.quick() and N <= 9):
+            for r in range(N):
+                for c in range(N):
+                    U = np.zeros((N, N), dtype=np.complex128); U[r, c] = 1
+                    ops.append(f'C05 gppt {ds} {ents(U)}')
+                    Hh = U + U.T + (1j * (U - U.T) if r != c else 0)
+                    ops.append(f'C05 ppt {ds} {ents(Hh)}')
+                    ops.append(f'C05 red {ds} {ents(Hh)}')
+        # verdict layer: diagonal matrices (Cholesky exact), dyadic eps, and the default
+        eps_list = ['default', '0/1', '1/2', '-1/2', '1/1', '-1/1', '-1/4', '2/1']
+        for r in range(rep * 3):
+            d = rng.integers(-1, 3, size=N) if r % 2 else rng.integers(0, 3, size=N)
+            D = np.diag(d).astype(np.complex128)
+            e = eps_list[r % len(eps_list)] if r >= 2 else 'default'
+            ops.append(f'C05 vppt {ds} {e} {ents(D)}')
+            ops.append(f'C05 vred {ds} {e} {ents(D)}')
+        for kk, th in [(1, 'default'), (2, 'default'), (1, '0/1'), (2, '1/1'), (2, '1/2'), (3, '2/1'), (1, '-1/2'), (0, '0/1'), (-2, '1/1'), (-2, '1/2')]:
+            r, c = int(rng.integers(0, N)), int(rng.integers(0, N))
+            U = np.zeros((N, N), dtype=np.complex128); U[r, c] = kk
+            ops.append(f'C05 vgppt {ds} {th} {ents(U)}')
+        if len(dim) == 2 and dim[0] == dim[1]:
+            for r in range(rep * 2):
+                G = rand_gint_matrix(rng, N, False)
+                d0 = dim[0]
+                v = int(round(sum(G[a * d0 + b, b * d0 + a] for a in range(d0) for b in range(d0)).real))
+                for e in ['default', f'{v}/1', f'{2 * v - 1}/2', f'{2 * v + 1}/2']:
+                    ops.append(f'C05 vswap {ds} {e} {ents(G)}')
+            Z = np.zeros((N, N), dtype=np.complex128)
+            ops.append(f'C05 vswap {ds} default {ents(Z)}')
+    # malformed
+    ops += ['C05 ppt 2;2 1,0;0,0', 'C05 ppt 1;4 ' + ents(np.eye(4)), 'C05 swap 2;3 ' + ents(np.eye(6)), 'C05 nonsense 2;2 ' + ents(np.eye(4)), 'C05 gpptlist x']
+    return ops
+
+
+def correspondence(ctx):
+    T = extract_thresholds()
+    ops = gen_ops(ctx)
+    impl = []
+    for op in ops:
+        t = op.split(' ')
+        # the malformed stream: the driver rejects, the implementation asserts / raises
+        r = impl_op(op) if _wellformed(op) else 'bad-op'
+        impl.append(r)
+    model = common.run_model([model_line(op, T) for op in ops])
+    def nontrivial(op, out):
+        t = op.split(' ')
+        if t[1] == 'gpptlist' or out == 'bad-op':
+            return True
+        e = t[-1].split(';')
+        N = int(round(math.sqrt(len(e))))
+        off = [x for i, x in enumerate(e) if i % (N + 1) != 0]
+        return any(x != '0,0' for x in off) or len(set(e[:: N + 1])) > 1
+    common.compare(ctx, ops, impl, model, nontrivial=nontrivial)
+    ctx.extra['exhaustive'] = True
+    ctx.extra['exhaustive_domain'] = ('every single-entry matrix (all index pairs) of the systems with N<=6 through is_ppt / is_generalized_ppt / '
+                                      'check_reduction_witness; the complete _is_generalized_ppt_dim_list for 2..4 parties' + ('' if ctx.quick() else ' (2..5, N<=9 in thorough)'))
+
+
+def _wellformed(op):
+    t = op.split(' ')
+    if t[1] == 'gpptlist':
+        return t[2].isdigit()
+    if t[1] not in ('ppt', 'red', 'gppt', 'swap', 'ptb', 'vppt', 'vred', 'vgppt', 'vswap'):
+        return False
+    try:
+        dim = [int(x) for x in t[2].split(';')]
+    except ValueError:
+        return False
+    if len(dim) < 2 or any(d < 2 for d in dim):
+        return False
+    N = int(np.prod(dim))
+    if len(t[-1].split(';')) != N * N:
+        return False
+    if t[1] in ('swap', 'vswap') and (len(dim) != 2 or dim[0] != dim[1]):
+        return False
+    if t[1] == 'ptb' and len(dim) != 2:
+        return False
+    return True
